@@ -1,9 +1,11 @@
 import ClipperVerif.Driver.Basic
+import ClipperVerif.Driver.C18
 namespace Clipper.Driver
 open Clipper.Proto
 
 def handlers : List (String → Option (P String)) := [
-  Basic.handle
+  Basic.handle,
+  C18.handle
 ]
 
 def dispatch (cmd : String) : Option (P String) :=
